@@ -118,3 +118,25 @@ def zoo_warn() -> dict:
     doc["components"]["pathItems"] = {"P": {"get": {"responses": {"200": {"description": "ok"}}}}}
     doc["jsonSchemaDialect"] = "https://json-schema.org/draft/2020-12/schema"
     return doc
+
+
+# valid instances of zoo_clean()'s component schemas (validity is screened independently with jsonschema before they are judged)
+ZOO_INSTANCES = {
+    "Leaf": [{"id": 1}, {"id": 2, "label": "l"}, {"id": 3, "extra": [1]}],
+    "Node": [{}, {"next": {"next": {}}, "children": [{"leaf": {"id": 1}}, {}], "leaf": {"id": 2}}],
+    "SpecialNode": [{"extra": "e", "next": {"children": []}}, {}],
+    "Tuple": [{"pair": [{"id": 1}, "s", 3], "grid": [[{"id": 1}], []], "enums": ["n", "s", "n"], "unions": [{"id": 1}, "2020-01-02"], "nullables": [1, None, 2]}, {}, {"pair": [], "grid": []}],
+    "Bags": [{"free": {"a": 1, "b": [None]}, "closed": {"a": "x"}, "typed": {"k": 1}, "refs": {"r": {"id": 1}}, "lists": {"l": [{"id": 1}], "e": []},
+              "nested": {"o": {"i": "2020-01-02T03:04:05+00:00"}, "empty": {}}}, {"free": {}, "closed": {}, "typed": {}, "refs": {}, "lists": {}, "nested": {}}],
+    "Formats": [{"d": "2020-01-02", "dt": "2020-01-02T03:04:05+00:00", "u": "12345678-1234-5678-1234-567812345678", "i32": 1, "i64": 2 ** 40, "f": 1.5, "dbl": 2.5, "mail": "a@b.c", "pw": "p",
+                 "odd": "o", "b64": "aGk="}, {"i32": 0, "f": 0.0, "pw": ""}],
+    "Enums": [{"one": "only", "neg": -1, "nul": None, "mixedcase": "d-d", "withnull": None}, {"neg": 0, "mixedcase": "", "withnull": "x"}, {"mixedcase": "1x"}, {"mixedcase": "Aa", "neg": 1}],
+    "Consts": [{"kind": "zoo"}, {"kind": "zoo", "n": 7, "flag": True, "ratio": 1.5}],
+    "Unions": [{"disc": {"petType": "Cat", "lives": 9}}, {"disc": {"petType": "Dog", "bark": True}, "any": None, "nested": [1, 2], "enums": "p", "typelist": None},
+               {"any": {"id": 1}, "nested": "s", "enums": 2, "typelist": "t"}, {"any": 5, "nested": {"id": 1}, "typelist": 3}, {"nested": [], "enums": 1}],
+    "Cat": [{"petType": "Cat"}, {"petType": "Cat", "lives": 0}],
+    "Three": [{"id": 1, "label": "l", "petType": "x"}, {"id": 1, "label": "l", "petType": "x", "lives": 3, "own": 1.5}],
+    "Annotated": [{"ro": "r", "wo": "w", "ex": 3, "titled": {"z": "zz"}, "defaults": [3]}, {}, {"defaults": [], "titled": {}}],
+    "Defaults": [{}, {"s": "x", "i": 1, "f": 2.5, "b": True, "d": "2021-01-01", "dt": "2021-01-01T00:00:00+00:00", "u": "22345678-1234-5678-1234-567812345678", "e": "red", "n": None},
+                 {"i": 0, "f": 0.0, "b": False, "s": ""}],
+}
